@@ -24,7 +24,7 @@ ASSUMPTIONS = [
     "(DESIGN.md section 2, R-deps); the write-back of a pre/post-indexed store itself is part of the tracked changes (judged through loads "
     "that use a copy of the base taken right after the store - a load through the base itself has a register dependency on the "
     "store anyway)",
-    "edge weight: store latency (with or without its load stage for read-modify-write forms) + store_to_load_forward_latency (default 0)",
+    "edge weight: store latency without its separately modelled load stage (read-modify-write forms) + store_to_load_forward_latency (default 0)",
 ]
 SHARD_TIMEOUT = {"quick": 600, "thorough": 3600}
 
@@ -34,7 +34,7 @@ def floors(tier):
     return {"evaluations": 500 if q else 10000, "distinct_nontrivial": 120 if q else 2500, "pairs_checked": 800 if q else 16000,
             "expected_edges": 200 if q else 4000, "expected_no_edge": 400 if q else 8000, "isa:x86": 1, "isa:aarch64": 1,
             "with_bump": 150 if q else 3000, "with_index": 60 if q else 1200, "with_copy": 30 if q else 600, "killed_by_store": 10 if q else 200,
-            "kind:synth": 250 if q else 5000, "kind:curated": 200 if q else 4000, "a64_writeback_between": 15 if q else 300, "bump_copy_bump": 25 if q else 500, "symbolic_displacement": 20 if q else 400, "multi_destination_store": 40 if q else 800, "writeback_store_then_copy": 8 if q else 150}
+            "kind:synth": 250 if q else 5000, "kind:curated": 200 if q else 4000, "a64_writeback_between": 15 if q else 300, "bump_copy_bump": 25 if q else 500, "symbolic_displacement": 20 if q else 400, "multi_destination_store": 40 if q else 800, "writeback_store_then_copy": 8 if q else 150, "copy_then_clobber": 20 if q else 400}
 
 
 def plan(tier, seed):
@@ -144,7 +144,23 @@ def stl_kernel(rng, isa, vocab, curated=False):
             delta[target] = (delta[target][0], delta[target][1] + ins["bump"][3])
         kernel.extend(seq)
         tags.update(["with_bump", "with_copy", "bump_copy_bump"])
-    for _ in range(rng.choice([0, 0, 1, 1, 2, 3]) if scenario >= 0.12 and not wb_copy else 0):
+    chase = False
+    if 0.12 <= scenario < 0.2 and copies and others and not wb_copy:
+        # pointer chasing: the address register is copied, then overwritten with something unknown; the copy still addresses
+        # the stored location
+        cl = None
+        for _ in range(6):
+            cl = clobber_instance(rng, isa, rng.choice(others), base, pool_data, curated)
+            if cl:
+                break
+        if cl:
+            kernel.append(copy_instance(rng, isa, rng.choice(copies), third, base, curated))
+            delta[third] = delta[base]
+            kernel.append(cl)
+            delta[base] = None
+            tags.update(["with_copy", "with_clobber", "copy_then_clobber"])
+            chase = True
+    for _ in range(rng.choice([0, 0, 1, 1, 2, 3]) if scenario >= 0.12 and not wb_copy and not chase else 0):
         k = rng.random()
         if k < 0.4 and bumps:
             f = rng.choice(bumps)
@@ -200,6 +216,8 @@ def stl_kernel(rng, isa, vocab, curated=False):
         how = rng.choice(["exact", "exact", "exact", "off8", "off1", "otherbase", "viacopy", "otheridx", "otherscale"])
         if "bump_copy_bump" in tags:
             how = rng.choice(["exact", "viacopy", "viacopy", "off8"])
+        if chase:
+            how = rng.choice(["viacopy", "viacopy", "exact", "off8"])
         if wb_copy:
             how = rng.choice(["viacopy", "viacopy", "viacopy_off"])
         lb = base
@@ -272,6 +290,10 @@ def bump_instance(rng, isa, f, target, c, curated):
         regs = [target, target]
     nregs = sum(1 for o in f["ops"] if o["kind"] == "reg")
     regs = (regs * 3)[:nregs]
+    if isa == "aarch64" and rng.random() < 0.12 and any(o["kind"] == "imm" for o in f["ops"]):
+        # immediates of 4096 and more are written with a shift
+        k = rng.choice([1, 2])
+        return D.instantiate(rng, isa, f, None, regs=regs, imm=4096 * k, imm_text="#%d, lsl #12" % k)
     return D.instantiate(rng, isa, f, None, regs=regs, imm=c)
 
 
@@ -340,7 +362,7 @@ def judge(isa, kernel_ast, forms, dg, mm, R, case):
                 w = obs[(a, b)]
                 F = forms[a]
                 wo = F.latency_wo_load if F.latency_wo_load is not None else F.latency
-                adm = {float(wo) + fwd, float(F.latency) + fwd}
+                adm = {float(wo) + fwd}  # the load stage of a read-modify-write store is a node of its own (C03: "without its separately modelled load stage")
                 R.count("weights_checked")
                 if w is None or not any(abs(float(w) - x) <= EPS for x in adm):
                     R.violation("weight/" + isa, "store->load edge %d->%d has weight %r, expected store latency %s + forwarding latency %s" % (a + 1, b + 1, w, wo, fwd), case)
